@@ -7,6 +7,8 @@
 (* Statements  (field s): assign(n,e) massign(ns,es) gassign(n,e) expr(e) if(t,a,b)     *)
 (*                        while(body) break continue return(e) raise(e)                 *)
 (*                        def(n,ps,body) try(body,hs,fin)                               *)
+(*                        mdef(n,ars) with ars[i] = [def, nfix, var]: a function of several *)
+(*                        arities = one def per arity + dispatch on the argument count      *)
 (* State st: [fr: frames, gl: module globals set by def, log: effect markers]           *)
 (*   frame = [vars: sequence of [n, v], parent: frame id or 0, fn: id of its function]  *)
 (* Names are looked up through the parent chain AT THE TIME OF THE READ: closures       *)
@@ -85,6 +87,13 @@ CallV(f, args, st, D) ==
                         IF r.ok THEN EOk(r.v, IF r.mark # 0 THEN [st EXCEPT !.log = Append(@, r.mark)] ELSE st)
                         ELSE EErr(r.v, st)
     [] f.ty = "pyfn" -> Tramp(f, args, st, D)
+    [] f.ty = "pymfn" ->     \* the dispatch function: exact fixed arity, else the variadic one, else an arity error
+         LET fx == {i \in 1..Len(f.ars) : ~f.ars[i].var /\ f.ars[i].nfix = Len(args)}
+             vr == {i \in 1..Len(f.ars) : f.ars[i].var /\ f.ars[i].nfix <= Len(args)}
+             i == IF fx # {} THEN CHOOSE j \in fx : TRUE ELSE IF vr # {} THEN CHOOSE j \in vr : TRUE ELSE 0
+         IN IF i = 0 THEN EErr(ArityError(Len(f.ars)), st)
+            ELSE Tramp([ty |-> "pyfn", def |-> f.ars[i].def, frame |-> f.frame],
+                       PackArgs(f.ars[i].nfix, f.ars[i].var, args), st, D)
     [] OTHER -> EErr(ExcV("TypeError"), st)
 
 EvalE(e, st, fid, D) ==
@@ -161,6 +170,7 @@ Exec(ss, st, fid, D) ==
       [] s.s = "expr" -> LET r == EvalE(s.e, st, fid, D) IN
                            IF ~r.ok THEN [ctl |-> "raise", v |-> r.v, st |-> r.st] ELSE Exec(rest, r.st, fid, D)
       [] s.s = "def" -> Exec(rest, [st EXCEPT !.fr = SetVar(@, fid, s.n, [ty |-> "pyfn", def |-> s, frame |-> fid])], fid, D)
+      [] s.s = "mdef" -> Exec(rest, [st EXCEPT !.fr = SetVar(@, fid, s.n, [ty |-> "pymfn", ars |-> s.ars, frame |-> fid])], fid, D)
       [] s.s = "return" -> LET r == EvalE(s.e, st, fid, D) IN
                              IF ~r.ok THEN [ctl |-> "raise", v |-> r.v, st |-> r.st]
                              ELSE [ctl |-> "return", v |-> r.v, st |-> r.st]
